@@ -2,18 +2,20 @@ import RustCcModel.Proofs.CountsSimp
 /-! Preservation of `Counts` by every micro-step. -/
 namespace RustCc
 open World
+variable {ex : Bool}
 
-theorem Counts.congr {w w' : World} (h : Counts w) (hH : w'.H = w.H) (hs : w'.stash = w.stash)
+theorem CountsG.congr {w w' : World} (h : CountsG ex w) (hH : w'.H = w.H) (hs : w'.stash = w.stash)
     (hst : w'.stack = w.stack) (hn : w'.next = w.next) (hheap : w'.heap = w.heap) (hpc : w'.pc = w.pc)
-    (hm : w'.metas = w.metas) : Counts w' := by
+    (hm : w'.metas = w.metas) : CountsG ex w' := by
   have hr : ∀ x, refs w' x = refs w x := fun x => refs_congr w w' x hH hs (by rw [hst]) hn (fun u _ => by rw [hheap])
   exact ⟨fun x => by rw [hr, hheap]; exact h.le x,
+         fun hex x => by rw [hr, hheap]; exact h.ge hex x,
          fun x hx => by rw [hr]; exact h.fresh x (by rw [← hn]; exact hx),
          fun f hf i hi => by rw [hn]; exact h.frames f (by rw [← hst]; exact hf) i hi,
          fun x hx => by rw [hn]; exact h.pcb x (by rw [← hpc]; exact hx),
          fun x hx => by rw [hm]; exact h.mfresh x (by rw [← hn]; exact hx)⟩
 
-theorem Counts.lt_of_refs_pos {w : World} (h : Counts w) {y : Id} (hp : 0 < refs w y) : y < w.next := by
+theorem CountsG.lt_of_refs_pos {w : World} (h : CountsG ex w) {y : Id} (hp : 0 < refs w y) : y < w.next := by
   cases Nat.lt_or_ge y w.next with
   | inl hlt => exact hlt
   | inr hge => have := h.fresh y hge; omega
@@ -21,13 +23,13 @@ theorem Counts.lt_of_refs_pos {w : World} (h : Counts w) {y : Id} (hp : 0 < refs
 theorem getH_count {w : World} {k : Nat} {y : Id} (h : w.getH k = some y) : 0 < (optIds w.H).count y :=
   count_pos_of_mem (getD_mem_optIds h)
 
-theorem getH_lt {w : World} (h : Counts w) {k : Nat} {y : Id} (hk : w.getH k = some y) : y < w.next := by
+theorem getH_lt {w : World} (h : CountsG ex w) {k : Nat} {y : Id} (hk : w.getH k = some y) : y < w.next := by
   apply h.lt_of_refs_pos
   have := getH_count hk
   unfold refs; omega
 
 /-- Pointers found in fields of an allocated object point to allocated objects. -/
-theorem field_lt {w : World} (h : Counts w) {s y : Id} (hs : s < w.next) (hy : y ∈ fieldsOf (w.heap s)) : y < w.next := by
+theorem field_lt {w : World} (h : CountsG ex w) {s y : Id} (hs : s < w.next) (hy : y ∈ fieldsOf (w.heap s)) : y < w.next := by
   apply h.lt_of_refs_pos
   have h1 := count_pos_of_mem hy
   have h2 := count_le_fieldRefs w s y hs
@@ -39,7 +41,7 @@ theorem slot_mem_fields {o : Obj} {i : Nat} {y : Id} (h : o.slots.getD i none = 
 theorem uslot_mem_fields {o : Obj} {i : Nat} {y : Id} (h : o.uslots.getD i none = some y) : y ∈ fieldsOf o := by
   unfold fieldsOf; simp only [List.mem_append]; exact Or.inl (Or.inl (Or.inr (getD_mem_optIds h)))
 
-theorem resolveC_lt {w : World} (h : Counts w) {self : Option Id} (hself : ∀ s, self = some s → s < w.next)
+theorem resolveC_lt {w : World} (h : CountsG ex w) {self : Option Id} (hself : ∀ s, self = some s → s < w.next)
     {r : CRef} {y : Id} (hr : w.resolveC self r = some y) : y < w.next := by
   cases r with
   | h k => exact getH_lt h hr
@@ -52,7 +54,7 @@ theorem resolveC_lt {w : World} (h : Counts w) {self : Option Id} (hself : ∀ s
     | none => simp [resolveC] at hr
     | some s => exact field_lt h (hself s rfl) (uslot_mem_fields (by simpa [resolveC] using hr))
 
-theorem resolveN_lt {w : World} (h : Counts w) {self : Option Id} (hself : ∀ s, self = some s → s < w.next)
+theorem resolveN_lt {w : World} (h : CountsG ex w) {self : Option Id} (hself : ∀ s, self = some s → s < w.next)
     {n : NRef} {t : Id} (hn : w.resolveN self n = some t) : t < w.next := by
   cases n with
   | of r => exact resolveC_lt h hself hn
@@ -62,16 +64,21 @@ theorem resolveN_lt {w : World} (h : Counts w) {self : Option Id} (hself : ∀ s
 /-- Builder: a step that allocates nothing preserves `Counts` if, object by object, the pointers it adds are
 paid for by the count (`Δrefs ≤ Δrc`), it creates no pointer to unallocated identities, and new frames / buffer
 entries name allocated objects. -/
-theorem Counts.build {w w' : World} (h : Counts w) (hn : w'.next = w.next)
+theorem CountsG.build {w w' : World} (h : CountsG ex w) (hn : w'.next = w.next)
     (hle : ∀ x, refs w' x + (w.heap x).rc ≤ refs w x + (w'.heap x).rc)
+    (hge : ex = true → ∀ x, refs w x + (w'.heap x).rc ≤ refs w' x + (w.heap x).rc)
     (hfresh : ∀ x, w.next ≤ x → refs w' x ≤ refs w x)
     (hframes : ∀ f ∈ w'.stack, f ∈ w.stack ∨ ∀ i ∈ f.ids, i < w.next)
     (hpc : ∀ x ∈ w'.pc, x ∈ w.pc ∨ x < w.next)
-    (hm : ∀ x, w.next ≤ x → (w'.metas x).accessible = false) : Counts w' := by
-  refine ⟨?_, ?_, ?_, ?_, ?_⟩
+    (hm : ∀ x, w.next ≤ x → (w'.metas x).accessible = false) : CountsG ex w' := by
+  refine ⟨?_, ?_, ?_, ?_, ?_, ?_⟩
   · intro x
     have h2 := hle x
     have := h.le x
+    omega
+  · intro hex x
+    have h2 := hge hex x
+    have := h.ge hex x
     omega
   · intro x hx
     rw [hn] at hx
@@ -91,22 +98,45 @@ theorem Counts.build {w w' : World} (h : Counts w) (hn : w'.next = w.next)
   · intro x hx; rw [hn] at hx; exact hm x hx
 
 /-- `Counts` with some extra pointers in flight (held by a frame that has just been popped). -/
-structure CountsH (w : World) (extra : List Id) : Prop where
+structure CountsH (ex : Bool) (w : World) (extra : List Id) : Prop where
   le : ∀ x, refs w x + extra.count x ≤ (w.heap x).rc
+  ge : ex = true → ∀ x, (w.heap x).rc ≤ refs w x + extra.count x
   fresh : ∀ x, w.next ≤ x → refs w x + extra.count x = 0
   frames : ∀ f ∈ w.stack, ∀ i ∈ f.ids, i < w.next
   pcb : ∀ x ∈ w.pc, x < w.next
   mfresh : ∀ x, w.next ≤ x → (w.metas x).accessible = false
 
-theorem Counts.toH {w : World} (h : Counts w) : CountsH w [] :=
-  ⟨fun x => by simpa using h.le x, fun x hx => by simpa using h.fresh x hx, h.frames, h.pcb, h.mfresh⟩
+theorem CountsG.toH {w : World} (h : CountsG ex w) : CountsH ex w [] :=
+  ⟨fun x => by simpa using h.le x, fun hex x => by simpa using h.ge hex x, fun x hx => by simpa using h.fresh x hx, h.frames, h.pcb, h.mfresh⟩
 
-theorem CountsH.toCounts {w : World} {extra : List Id} (h : CountsH w extra) : Counts w :=
-  ⟨fun x => by have := h.le x; omega, fun x hx => by have := h.fresh x hx; omega, h.frames, h.pcb, h.mfresh⟩
+/-- Ending a step with nothing in flight. -/
+theorem CountsH.toCounts0 {w : World} (h : CountsH ex w []) : CountsG ex w :=
+  ⟨fun x => by simpa using h.le x, fun hex x => by simpa using h.ge hex x, fun x hx => by simpa using h.fresh x hx, h.frames, h.pcb, h.mfresh⟩
+
+theorem CountsH.toCountsF {w : World} {extra : List Id} (h : CountsH ex w extra) : CountsG false w :=
+  ⟨fun x => by have := h.le x; omega, (fun hex => nomatch hex), fun x hx => by have := h.fresh x hx; omega, h.frames, h.pcb, h.mfresh⟩
+
+/-- Forgetting exactness. -/
+theorem CountsH.weaken {w : World} {extra : List Id} (h : CountsH ex w extra) : CountsH false w extra :=
+  ⟨h.le, (fun hex => nomatch hex), h.fresh, h.frames, h.pcb, h.mfresh⟩
+
+theorem CountsG.weaken {w : World} (h : CountsG ex w) : CountsG false w :=
+  ⟨h.le, (fun hex => nomatch hex), h.fresh, h.frames, h.pcb, h.mfresh⟩
+
+/-- Exactness is only claimed while `b` holds. -/
+theorem CountsG.weakenAnd {w : World} (h : CountsG ex w) (b : Bool) : CountsG (ex && b) w :=
+  ⟨h.le, (fun hex => h.ge (by cases ex <;> simp_all)), h.fresh, h.frames, h.pcb, h.mfresh⟩
+
+/-- Exactness claimed only for worlds that did not get stuck on a model assertion. -/
+theorem CountsG.flag {w : World} (h : w.mode ≠ .stuck → CountsG ex w) (h0 : CountsG false w) :
+    CountsG (ex && decide (w.mode ≠ .stuck)) w :=
+  ⟨h0.le, (fun hex => by
+      have h2 : ex = true ∧ w.mode ≠ .stuck := by simpa using hex
+      exact (h h2.2).ge h2.1), h0.fresh, h0.frames, h0.pcb, h0.mfresh⟩
 
 /-- Popping the top frame: its held pointers are in flight, its identities are allocated. -/
-theorem Counts.pop {w : World} (h : Counts w) {f : Frame} {rest : List Frame} (hs : w.stack = f :: rest) :
-    CountsH { w with stack := rest } f.holds ∧ (∀ i ∈ f.ids, i < w.next) := by
+theorem CountsG.pop {w : World} (h : CountsG ex w) {f : Frame} {rest : List Frame} (hs : w.stack = f :: rest) :
+    CountsH ex { w with stack := rest } f.holds ∧ (∀ i ∈ f.ids, i < w.next) := by
   have hr : ∀ x, refs w x = refs { w with stack := rest } x + f.holds.count x := by
     intro x
     unfold refs
@@ -114,30 +144,36 @@ theorem Counts.pop {w : World} (h : Counts w) {f : Frame} {rest : List Frame} (h
     rw [hf, hs, held_cons, List.count_append]
     show _ = (optIds w.H).count x + w.stash x + (held rest).count x + fieldRefs w x + _
     omega
-  refine ⟨⟨?_, ?_, ?_, ?_, ?_⟩, ?_⟩
+  refine ⟨⟨?_, ?_, ?_, ?_, ?_, ?_⟩, ?_⟩
   · intro x; have := h.le x; rw [hr] at this; exact this
+  · intro hex x; have := h.ge hex x; rw [hr] at this; exact this
   · intro x hx; have := h.fresh x hx; rw [hr] at this; exact this
   · intro g hg i hi; exact h.frames g (by rw [hs]; exact List.mem_cons_of_mem _ hg) i hi
   · exact h.pcb
   · exact h.mfresh
   · intro i hi; exact h.frames f (by rw [hs]; exact List.mem_cons_self ..) i hi
 
-theorem CountsH.lt_of_mem {w : World} {extra : List Id} (h : CountsH w extra) {y : Id} (hy : y ∈ extra) : y < w.next := by
+theorem CountsH.lt_of_mem {w : World} {extra : List Id} (h : CountsH ex w extra) {y : Id} (hy : y ∈ extra) : y < w.next := by
   cases Nat.lt_or_ge y w.next with
   | inl hlt => exact hlt
   | inr hge => have := h.fresh y hge; have := count_pos_of_mem hy; omega
 
-/-- Generalised builder (see `Counts.build`): the in-flight pointers may be consumed. -/
-theorem CountsH.build {w w' : World} {extra : List Id} (h : CountsH w extra) (hn : w'.next = w.next)
+/-- Generalised builder (see `CountsG.build`): the in-flight pointers may be consumed. -/
+theorem CountsH.build {w w' : World} {extra : List Id} (h : CountsH ex w extra) (hn : w'.next = w.next)
     (hle : ∀ x, refs w' x + (w.heap x).rc ≤ refs w x + extra.count x + (w'.heap x).rc)
+    (hge : ex = true → ∀ x, refs w x + extra.count x + (w'.heap x).rc ≤ refs w' x + (w.heap x).rc)
     (hfresh : ∀ x, w.next ≤ x → refs w' x ≤ refs w x + extra.count x)
     (hframes : ∀ f ∈ w'.stack, f ∈ w.stack ∨ ∀ i ∈ f.ids, i < w.next)
     (hpc : ∀ x ∈ w'.pc, x ∈ w.pc ∨ x < w.next)
-    (hm : ∀ x, w.next ≤ x → (w'.metas x).accessible = false) : Counts w' := by
-  refine ⟨?_, ?_, ?_, ?_, ?_⟩
+    (hm : ∀ x, w.next ≤ x → (w'.metas x).accessible = false) : CountsG ex w' := by
+  refine ⟨?_, ?_, ?_, ?_, ?_, ?_⟩
   · intro x
     have h2 := hle x
     have := h.le x
+    omega
+  · intro hex x
+    have h2 := hge hex x
+    have := h.ge hex x
     omega
   · intro x hx
     rw [hn] at hx
@@ -157,14 +193,14 @@ theorem CountsH.build {w w' : World} {extra : List Id} (h : CountsH w extra) (hn
   · intro x hx; rw [hn] at hx; exact hm x hx
 
 /-- `{ w with ret := r }`, `mode`, fault counters, config: nothing the invariant looks at. -/
-theorem Counts.ret {w : World} (h : Counts w) (r : Ret) : Counts { w with ret := r } := h.congr rfl rfl rfl rfl rfl rfl rfl
+theorem CountsG.ret {w : World} (h : CountsG ex w) (r : Ret) : CountsG ex { w with ret := r } := h.congr rfl rfl rfl rfl rfl rfl rfl
 
-theorem Counts.raise {w : World} (h : Counts w) : Counts w.raise := by
+theorem CountsG.raise {w : World} (h : CountsG ex w) : CountsG ex w.raise := by
   unfold World.raise; split <;> exact h.congr rfl rfl rfl rfl rfl rfl rfl
 
-theorem Counts.raiseLogged {w : World} (h : Counts w) : Counts w.raiseLogged := by
+theorem CountsG.raiseLogged {w : World} (h : CountsG ex w) : CountsG ex w.raiseLogged := by
   unfold World.raiseLogged
-  exact Counts.raise (h.congr rfl rfl rfl rfl rfl rfl rfl)
+  exact CountsG.raise (h.congr rfl rfl rfl rfl rfl rfl rfl)
 
 theorem pc_removeFromList_sub (w : World) (y : Id) : ∀ z ∈ (w.removeFromList y).pc, z ∈ w.pc := by
   unfold removeFromList; split
